@@ -29,12 +29,17 @@ LEVEL_TEXT = ('Lean theorems for every specification (any axis lengths, list/dic
               'concatenation, runs give one simulation per entry; every registered name resolves to the class of '
               'that name (decided on the table regenerated from config.py on every run); re-instantiating from the '
               'recorded inputs reproduces class and parameters; _find_current_simulation returns exactly the record '
-              'with equal inputs. The model is tied to _batch_simulation.py by differential runs on random specs.')
+              'with equal inputs. For method splitting the same is proved tuple by tuple: the simulations are, position by '
+              'position over the product codes x noises x decoders, built from exactly the requested blocks, every '
+              'requested combination gets one and no other exists, and each carries all requested error rates in '
+              'non-increasing order (a permutation of the requested list). The model is tied to '
+              '_batch_simulation.py by differential runs on random specs.')
 LEVEL_NOTE = ('trusted: Lean kernel + standard axioms; correspondence harness and the config.py translator; lattice '
               'construction and decoder set-up are outside the model (sizes/parameters the classes accept); a code '
               'deformation is not part of the recorded inputs, so "identical code" means class and (L_x, L_y, L_z); the '
-              'splitting method is modelled (one simulation per code x noise x decoder) and its count is proved, the '
-              'per-tuple theorems are for the direct method')
+              'splitting method is modelled and proved per tuple like the direct one; of the one-decoder-per-rate list of a '
+              'SplittingSimulation the model keeps the instantiation (class, params) they share - error_rate is an '
+              'implicit constructor argument, not part of params')
 TECHNIQUE = ('Lean 4 proof (structural induction over lists / Cartesian products, decide on the regenerated finite '
              'registry) + regenerated tables + differential correspondence with the compiled model driver')
 TRUSTED = ['itertools.product order (last axis fastest), Python call semantics for *args/**kwargs as modelled in '
